@@ -131,6 +131,7 @@ def check(prop, tier, seed):
     res = {"suite": "determinism", "kind": "two runs in one process + fresh processes", "params": params, "cache_hit": False,
            "n_scripts": nscripts, "n_events": nev, "distinct": nhash,
            "extra": {"transcript_pairs": npairs, "scripts_with_hash_backed_storage_or_serialisation": nhash}}
+    res["rule"] = "each script is run twice in one process and once more in every further process; every pair of transcripts is stepped through in lock-step by Det_Trace.tla; distinct_nontrivial = scripts that involve a hash-backed storage, a join or serialised output"
     out, seen = [], set()
     for v in viol:
         if v["tid"] in seen:
